@@ -230,6 +230,26 @@ def parseLines : Option Bytes → Bytes → List Bytes → Except Err (List (Byt
 def parseMessage (s : Bytes) : Except Err (List (Bytes × Bytes) × Option Bytes) :=
   parseLines none [] (splitLines s)
 
+/-- `_parse_message` is a generator: the consumer (`Tag._deserialize`, `_parse_commit`) handles every
+`(field, value)` pair as soon as it is yielded, i.e. before the following line is even split.  This
+variant returns the pairs yielded before the generator stopped, and how it stopped (`.ok body` or the
+error of the line it could not split), so that the consumers can be modelled with the real order of
+failures. -/
+def parseLinesP : Option Bytes → Bytes → List Bytes → List (Bytes × Bytes) × Except Err (Option Bytes)
+  | k, v, [] => (flushHeader k v, .ok none)
+  | k, v, line :: rest =>
+    if line.head? = some OGen.contParse then parseLinesP k (v ++ line.tail) rest
+    else if line = [10] then (flushHeader k v, .ok (some rest.flatten))
+    else
+      match splitFirst 32 line with
+      | none => (flushHeader k v, .error .format)
+      | some (k', r) =>
+        let p := parseLinesP (some k') r rest
+        (flushHeader k v ++ p.1, p.2)
+
+def parseMessageP (s : Bytes) : List (Bytes × Bytes) × Except Err (Option Bytes) :=
+  parseLinesP none [] (splitLines s)
+
 /-! ## time zones and time entries -/
 
 /-- `"%02d" % x` for an integer-valued argument. -/
